@@ -16,7 +16,14 @@ pub fn string_failure(f: Fmt, s: &str, must_succeed: bool) -> Option<String> {
     match (&a, &b) {
         (Out::Ok(x), Out::Ok(y)) => {
             if x == y {
-                None
+                // semantically identical: the library's own == must say so too
+                match (enum_parse_value(f, s), lex_fold_value(f, s)) {
+                    (Ok(Ok(p)), Some(q)) => match crate::guard::observe(|| p == q) {
+                        crate::guard::Obs::Ret(false) => Some(format!("{:?}: both pipelines give {} but the library's == says the two values differ", s, x)),
+                        _ => None,
+                    },
+                    _ => None,
+                }
             } else {
                 Some(format!("{:?}: enum parser = {} but lexical parser + fold = {}", s, x, y))
             }
